@@ -10,4 +10,5 @@ for r in d['results'] or []:
         print('  FAIL',f['kind'],f['msg'],[ (i['name'],i['value']) for i in f['inputs']][:40]); print(f.get('stack','')[:1500])
     elif k=='unsupported':
       for u in v or []: print('  UNSUPPORTED',u[:1500])
+    elif k in ('unknowns','bound_hits'): print(' ',k,len(v or []),(v or [''])[0][:300])
     else: print(' ',k,v)
